@@ -13,6 +13,14 @@
    the body assigns to.  The inventory is compared with the reviewed table
    translate/par_summaries.json; a region that is new, gone or whose text changed is
    reported on stdout as `UNREVIEWED <file>#<n>` and makes the translator exit 3.
+3. Generated access summaries (lean/SharkVerif/Gen/ParSummaries.lean): for every in-scope region the variables
+   written in the body are extracted and classified mechanically (local / indexed by the loop variable / indexed by
+   the thread id / inside SHARK_CRITICAL_REGION / read-only / shared-and-unprotected); what the token-level
+   analysis cannot decide is taken from the reviewed allow-list translate/par_allow.json (entries pinned to the text
+   of the callee they talk about).  Each summary carries the obligation `r<k>_race_free`, proved by instantiating
+   the generic theorem `summary_race_free`; the inventory of mutable members / const_casts / static locals of
+   pluggable components carries `mutable_members_reviewed`.  The extractor runs a self-test on synthetic regions
+   on every invocation.  `--propose` prints the undecided accesses as allow-list candidates.
 """
 import argparse, hashlib, json, os, re, sys
 sys.path.insert(0, os.path.dirname(os.path.abspath(__file__)))
@@ -266,7 +274,7 @@ def extract(header, body, allow, rid, pure, const_methods, used):
                 continue
             root, sel = root_of(lhs)
             if root is None or root in KEYWORDS: continue
-            classify_write(root, lhs, in_crit)
+            classify_write(root, lhs + (" " + m.group(1) if in_crit else ""), in_crit)
         for m in re.finditer(r"(?:\+\+|--)\s*([A-Za-z_]\w*(?:(?:->|\.)\w+)*)|([A-Za-z_]\w*(?:(?:->|\.)\w+)*)\s*(?:\+\+|--)", text):
             e = m.group(1) or m.group(2); root = re.match(r"\w+", e).group(0)
             if root == lv or root in KEYWORDS: continue
@@ -316,6 +324,9 @@ def extract(header, body, allow, rid, pure, const_methods, used):
             if a and a["verdict"] == "local": emit(fn, acc, "local", "allow-list: " + a["reason"]); continue
             emit(fn, acc, "shared", "call whose effect on shared state the extractor cannot decide (needs allow entry)")
 
+    for m in re.finditer(r"\b(?:static|thread_local)\s+(?!_cast)[^;=(){}]*?\b([A-Za-z_]\w*)\s*(?:=|;|\(|\{)", nb + " ".join(crit)):
+        if "static_cast" in m.group(0): continue
+        emit(m.group(1), "static local " + m.group(1), "shared", "a function-local static is one object shared by all threads")
     scan(nb, False)
     for c in crit:
         if "SHARK_CRITICAL_REGION" in c or "SHARK_PARALLEL_FOR" in c:
@@ -323,6 +334,19 @@ def extract(header, body, allow, rid, pure, const_methods, used):
         scan(c, True)
     return {"loopvar": lv, "critical": bool(crit), "vars": out,
             "locals": sorted(decls), "iter_derived": sorted(it - {lv}), "thread_derived": sorted(th)}
+
+
+def region_kind(sm):
+    """which theorem family a summarised region falls under, from the extracted accesses alone"""
+    crit = [v for v in sm["vars"] if v["class"] == "critical"]
+    if any(v["class"] == "threadIndexed" for v in sm["vars"]): return "thread-indexed"
+    if not crit: return "disjoint"
+    assigns = [v for v in crit if not v["access"].endswith("(...)") and "(...) [" not in v["access"]]
+    calls = [v for v in crit if v not in assigns]
+    if any(not v["access"].endswith("+=") for v in assigns):
+        return "critical-overwrite"              # `x = v` under the lock: last writer wins, schedule dependent — no theorem
+    if calls: return "critical-collect"          # container growth (push_back / emplace_back / addModel): commute up to permutation
+    return "critical-reduction"                  # only `acc += x` under the lock: commuting updates
 
 
 def block_hash(repo, file, anchor):
@@ -360,9 +384,58 @@ def lean_str(x):
     return '"' + x.replace("\\", "\\\\").replace('"', '\\"') + '"'
 
 
+# ---------------------------------------------------------------------------------------------
+# self-test of the extractor on synthetic regions (run on every invocation: a regression of the
+# token-level analysis must not silently turn shared writes into local ones)
+# ---------------------------------------------------------------------------------------------
+SELFTEST = [
+    # (header, body, {variable-prefix: expected class})
+    ("int i = 0; i < n; ++i", "{ tmp = f(i); out[i] = tmp; }", {"tmp": "shared", "out": "iterIndexed"}),
+    ("int i = 0; i < n; ++i", "{ double tmp = g(i); out[i] = tmp; }", {"tmp": None, "out": "iterIndexed"}),
+    ("int i = 0; i < n; ++i", "{ double v = h(i); SHARK_CRITICAL_REGION{ acc += v; list.push_back(v); } }", {"acc": "critical", "list": "critical"}),
+    ("int b = 0; b < nb; ++b", "{ std::size_t slot = p*T+SHARK_THREAD_NUM; heaps[slot] = 1; }", {"heaps": "threadIndexed"}),
+    ("int i = 0; i < n; ++i", "{ double* q = &buf[0]; *q = 1.0; }", {"buf<-q": "shared"}),
+    ("int i = 0; i < n; ++i", "{ std::size_t s = start[i]; noalias(subrange(m(),s,s+1)) = x; }", {"m": "shared"}),
+    ("int i = 0; i < n; ++i", "{ m_counter++; out[i] = 0; }", {"m_counter": "shared"}),
+    ("int i = 0; i < n; ++i", "{ model->eval(in[i], out2, *state); }", {"model": "shared"}),
+    ("int i = 0; i < n; ++i", "{ boost::shared_ptr<State> state = model->createState(); RealMatrix out2; scratch.resize(3); }", {"scratch": "shared"}),
+    ("int i = 0; i < n; ++i", "{ SHARK_CRITICAL_REGION{ SHARK_CRITICAL_REGION{ a += 1; } } }", {"<nested>": "shared"}),
+    ("int i = 0; i < n; ++i", "{ static std::vector<double> tmp; tmp.resize(3); out[i] = 0; }", {"tmp": "shared"}),
+    ("int i = 0; i < n; ++i", "{ std::size_t t = static_cast<std::size_t>(i); out[t] = 0; }", {"out": "shared"}),
+]
+
+
+KIND_SELFTEST = [
+    ("int i = 0; i < n; ++i", "{ double v = h(i); SHARK_CRITICAL_REGION{ acc += v; noalias(der) += w; } }", "critical-reduction"),
+    ("int i = 0; i < n; ++i", "{ double v = h(i); SHARK_CRITICAL_REGION{ best = v; } }", "critical-overwrite"),
+    ("int i = 0; i < n; ++i", "{ double v = h(i); SHARK_CRITICAL_REGION{ res.emplace_back(v,i); } }", "critical-collect"),
+    ("int i = 0; i < n; ++i", "{ out[i] = h(i); }", "disjoint"),
+]
+
+
+def extractor_selftest():
+    bad = []
+    for k, (h, b, want) in enumerate(KIND_SELFTEST):
+        got = region_kind(extract(h, b, {}, f"kindtest#{k}", {"h": ""}, {}, set()))
+        if got != want: bad.append(f"kindtest#{k}: expected kind {want}, got {got}")
+    for k, (h, b, want) in enumerate(SELFTEST):
+        got = extract(h, b, {}, f"selftest#{k}", {"f": "", "g": "", "h": ""}, {"createState": "const factory"}, set())
+        for var, cls in want.items():
+            rows = [v for v in got["vars"] if v["var"] == var or v["var"].startswith(var + " ") or v["var"] == var]
+            if cls is None:
+                if any(v["class"] == "shared" for v in rows): bad.append(f"selftest#{k}: {var} must not be shared: {rows}")
+            elif not any(v["class"] == cls for v in rows):
+                bad.append(f"selftest#{k}: expected {var} -> {cls}, got {[(v['var'], v['access'], v['class']) for v in got['vars']]}")
+    return bad
+
+
 def main():
     ap = argparse.ArgumentParser(); ap.add_argument("--repo", default="/repo"); ap.add_argument("--out", default=None); ap.add_argument("--propose", action="store_true")
     a = ap.parse_args()
+    st = extractor_selftest()
+    if st:
+        print("\n".join(st))
+        raise SystemExit("par_regions: extractor self-test failed")
     out = a.out or os.path.join(V, "lean/SharkVerif/Gen/ParRegions.lean")
     L = ["/- GENERATED by translate/par_regions.py from the C++ source on every run — do not edit. -/",
          "namespace SharkVerif.Gen.ParRegions", ""]
@@ -473,6 +546,16 @@ def main():
         if r["id"] in bodies and table1.get(r["id"], {}).get("class") != "out-of-scope":
             h, b = bodies[r["id"]]
             r["summary"] = extract(h, b, allow, r["id"], aj.get("pure_functions", {}), aj.get("const_methods", {}), used)
+    # mechanical kind of every summarised region, compared with the reviewed class (which names the theorem it falls under)
+    kind_mismatch = []
+    for r in inv:
+        sm = r.get("summary")
+        if not sm or "vars" not in sm: continue
+        crit = [v for v in sm["vars"] if v["class"] == "critical"]
+        kind = region_kind(sm)
+        sm["kind"] = kind
+        if r.get("class") not in (kind, "UNREVIEWED"):
+            kind_mismatch.append(f'{r["id"]}: extracted kind {kind}, reviewed class {r.get("class")}')
     muts = mutable_inventory(a.repo)
     reviewed_mut = {(m["file"], norm(m["decl"])) for m in aj.get("mutable_members", [])}
     if a.propose:
@@ -538,6 +621,7 @@ def main():
     print(f"par_regions: {sites} thread-range sites, {len(inv)} parallel regions, {len(unrev)} unreviewed, {len(gone)} gone")
     print(f"par_regions: {k} generated summaries, {nshared} shared-unprotected accesses, {len(used)} allow entries used, "
           f"{len(stale)} stale allow entries, {len(muts)} mutable members ({len(unrev_mut)} unreviewed)")
+    for km in kind_mismatch: print("KIND-MISMATCH", km)
     for st in stale: print("STALE-ALLOW", st)
     for m in unrev_mut: print("UNREVIEWED-MUTABLE", m["file"], m["decl"])
     for r in inv:
@@ -545,7 +629,7 @@ def main():
             if v["class"] == "shared": print("SHARED-UNPROTECTED", r["id"], "|", v["access"], "|", v["why"])
     for u in unrev: print("UNREVIEWED", u)
     for g in gone: print("GONE", g)
-    sys.exit(3 if (unrev or gone) else 0)
+    sys.exit(3 if (unrev or gone or kind_mismatch) else 0)
 
 
 if __name__ == "__main__":
